@@ -208,7 +208,7 @@ def io_a(fam, what, quick=IO_AQUICK):
     out = []
     for m, (doc, cap, r, pb, t) in IO_A.items():
         tcap = t if fam.startswith("recv") else max(300, t // 4)
-        out.append(H("io_async::%s::%s" % (m, fam), tcap, 14, "buffer capacity %d, %d further stream bytes, every chunking, up to %d Pending results anywhere (poll_read/poll_write/poll_flush); message type %s" % (cap, r, pb, doc),
+        out.append(H("io_async::%s::%s" % (m, fam), tcap, 24 if fam.startswith("recv") else 14, "buffer capacity %d, %d further stream bytes, every chunking, up to %d Pending results anywhere (poll_read/poll_write/poll_flush); message type %s" % (cap, r, pb, doc),
                      what, tier="quick" if m in quick else "thorough"))
     return out
 
